@@ -329,6 +329,16 @@ def call(I, name, args, e):
     if n in ('core::iter::Iterator::zip',) or n.endswith('as core::iter::Iterator>::zip'):
         b0 = deref(args[1])
         if isinstance(b0, SeqV): b0 = IterV(b0, isinstance(args[1], RefV))
+        def as_iter(x):
+            # ranges as zip partners: `a..b` with constant bounds is its elements; `a..` counts up from a
+            rg = x.seq if isinstance(x, IterV) and isinstance(x.seq, RangeV) and not x.maps else x
+            if isinstance(rg, RangeV) and is_term(rg.lo):
+                if rg.hi is None:
+                    r = IterV(None, False, kind='slice'); r.count_from = rg.lo; return r
+                if is_term(rg.hi) and rg.lo[0] == 'c' and rg.hi[0] == 'c' and 0 <= rg.hi[1] - rg.lo[1] <= 64:
+                    return IterV(SeqV('usize', [('elem', C(i)) for i in range(rg.lo[1], rg.hi[1])]), False)
+            return x
+        a0, b0 = as_iter(a0), as_iter(b0)
         if isinstance(a0, IterV) and isinstance(b0, IterV) and not a0.maps and not b0.maps and a0.kind == b0.kind == 'slice':
             r_ = IterV(None, False, kind='zip'); r_.parts = (a0, b0); return r_
         return I.top('zip of %r and %r' % (a0, b0), e)
@@ -363,7 +373,12 @@ def call(I, name, args, e):
 
     # ---------------- small std helpers that refactors like to use
     if n.endswith('as core::iter::Iterator>::map') or n == 'core::iter::Iterator::map':
-        if isinstance(a0, IterV): return IterV(a0.seq, a0.by_ref, a0.kind, a0.maps + [args[1]], a0.enum)
+        if isinstance(a0, IterV):
+            r_ = IterV(a0.seq, a0.by_ref, a0.kind, a0.maps + [args[1]], a0.enum)
+            for k_ in ('parts', 'inner', 'fn', 'count_from', 'value', 'pos'):
+                if hasattr(a0, k_): setattr(r_, k_, getattr(a0, k_))
+            return r_
+        if isinstance(a0, RangeV): return IterV(a0, False, 'slice', [args[1]])
         return I.top('map over %r' % (a0,), e)
     if n in ('core::option::Option::<T>::iter', 'core::option::Option::<T>::iter_mut') or (n.endswith('::into_iter') and isinstance(a0, EnumV) and a0.path == 'core::option::Option'):
         if isinstance(a0, EnumV): return IterV(a0, n.endswith('iter') or isinstance(args[0], RefV), kind='option')
@@ -456,15 +471,37 @@ def call(I, name, args, e):
         src_ = deref(args[1])
         if isinstance(src_, SeqV) and not isinstance(args[1], RefV) and src_.elem == out.elem and not src_.stores and not out.stores:
             out.segs.extend(src_.segs); I.log.append(('mutate', n, e.get('sp'), _tgt(a0))); return UNIT     # extend(vec) / extend([a, b])
-        def step(el):
-            v = el
-            if out.is_bytes() or int_bits(out.elem):
-                v = deref(el)
-                if not is_term(v):
-                    I.top('extend of Vec<%s> by a non-scalar' % out.elem, e); return
-            elif isinstance(v, RefV) and not out.elem.startswith('&'): v = deref(v)
-            out.segs.append(('int', v, 1) if out.is_bytes() else ('elem', v))
-        I.iterate(args[1], step, e)
+        it_ = deref(args[1]); rg_ = it_.seq if isinstance(it_, IterV) and isinstance(it_.seq, RangeV) else it_
+        def run_(out):
+            def step(el):
+                v = el
+                if out.is_bytes() or int_bits(out.elem):
+                    v = deref(el)
+                    if not is_term(v):
+                        I.top('extend of Vec<%s> by a non-scalar' % out.elem, e); return
+                elif isinstance(v, RefV) and not out.elem.startswith('&'): v = deref(v)
+                out.segs.append(('int', v, 1) if out.is_bytes() else ('elem', v))
+            src_it = args[1]
+            if isinstance(rg_, RangeV) and rg_.hi is not None and is_term(rg_.lo) and is_term(rg_.hi):
+                r2 = RangeV(rebuild(rg_.lo, lambda x: None), rebuild(rg_.hi, lambda x: None))     # (folds under this case's facts)
+                src_it = r2 if rg_ is it_ else IterV(r2, it_.by_ref, it_.kind, it_.maps, it_.enum)
+            I.iterate(src_it, step, e)
+            return UNIT
+        # a range whose length was chosen earlier among constants is split by cases here, with the vector carried into
+        # each case's copy of the state (the step function holds the vector itself)
+        it_ = deref(args[1]); rg_ = it_.seq if isinstance(it_, IterV) and isinstance(it_.seq, RangeV) else it_
+        def split_(out, depth=0):
+            if isinstance(rg_, RangeV) and rg_.hi is not None and is_term(rg_.lo) and is_term(rg_.hi) and depth < 6:
+                n_ = rebuild(sub(rg_.hi, rg_.lo), lambda x: None)
+                if n_[0] != 'c' and any(u[0] == 'ite' for u in sym.subterms(n_)):
+                    cs = sorted((x for x in sym.cond_atoms(n_) if not any(u[0] == 'ite' for u in sym.subterms(x))), key=sym.key)
+                    if cs: return I.branch([(cs[0], lambda o_: split_(o_, depth + 1)), (TRUE, lambda o_: split_(o_, depth + 1))], carry=[out])
+            return run_(out)
+        I._range_splits = getattr(I, '_range_splits', 0) + 6      # (the iteration below must not split again on its own)
+        try:
+            split_(out)
+        finally:
+            I._range_splits -= 6
         I.log.append(('mutate', n, e.get('sp'), _tgt(a0)))
         return UNIT
     if n in ('alloc::vec::Vec::<T, A>::reserve', 'alloc::vec::Vec::<T, A>::reserve_exact', 'alloc::vec::Vec::<T, A>::shrink_to_fit'):
@@ -504,11 +541,21 @@ def call(I, name, args, e):
             ev = EnumV('core::option::Option', None, sym=('a', I.fresh_name('map')), ty=ty)
             c_ = getattr(a0, 'some_cond', None) or ('isvar', a0.sym, 'Some')
             # the closure is evaluated on the payload under the condition that there is one
-            box_ = {}
-            def some_(): box_['v'] = I.call_closure(args[1], [I.enum_payload(a0, 'Some', '0')], e); return UNIT
-            I.branch([(c_, some_), (TRUE, lambda: UNIT)])
-            if 'v' not in box_ or isinstance(box_['v'], Top): return I.top('Option::map with an unevaluable closure', e)
-            ev.payload_cache[('Some', '0')] = box_['v']; ev.some_cond = c_
+            v_ = _under(I, c_, lambda: I.call_closure(args[1], [I.enum_payload(a0, 'Some', '0')], e), e)
+            if isinstance(v_, Top): return I.top('Option::map with an unevaluable closure', e)
+            ev.payload_cache[('Some', '0')] = v_; ev.some_cond = c_
+            return ev
+        # and_then on a symbolic option: Some exactly when there is a payload and the closure yields Some of it
+        c_ = getattr(a0, 'some_cond', None) or ('isvar', a0.sym, 'Some')
+        r_ = _under(I, c_, lambda: I.call_closure(args[1], [I.enum_payload(a0, 'Some', '0')], e), e)
+        if isinstance(r_, EnumV) and r_.path == 'core::option::Option':
+            if r_.variant == 'None': return opt_none(ty)
+            ev = EnumV('core::option::Option', None, sym=('a', I.fresh_name('and_then')), ty=ty)
+            if r_.variant == 'Some':
+                ev.some_cond = c_; ev.payload_cache[('Some', '0')] = r_.fields['0']
+            else:
+                ev.some_cond = b_and(c_, getattr(r_, 'some_cond', None) or ('isvar', r_.sym, 'Some'))
+                ev.payload_cache[('Some', '0')] = I.enum_payload(r_, 'Some', '0')
             return ev
         return I.top('Option::and_then on a symbolic option', e)
     if (n.endswith('as core::iter::Iterator>::any') or n.endswith('as core::iter::Iterator>::all') or n in ('core::iter::Iterator::any', 'core::iter::Iterator::all')):
@@ -538,6 +585,53 @@ def call(I, name, args, e):
                 els_ = [('elem', RefV(Cell(SliceV(base_sq, C(lo_[1] + i_ * k_), C(min(lo_[1] + (i_ + 1) * k_, hi_[1])))))) for i_ in range(cnt_)]
                 return IterV(SeqV('&[%s]' % base_sq.elem, els_), False)
         return I.top('chunks of a sequence whose length is not a constant', e)
+    if (n.endswith('as core::iter::Iterator>::find') or n.endswith('as core::iter::Iterator>::position') or n in ('core::iter::Iterator::find', 'core::iter::Iterator::position')) and isinstance(deref(args[0]), IterV):
+        # over finitely many known elements: the first one whose predicate holds
+        it_ = deref(args[0]); els_ = []
+        def collect_(x): els_.append(x)
+        n_t = len(I.tops)
+        sq_ = deref(it_.seq) if it_.seq is not None else None
+        finite = (it_.kind == 'zip') or (it_.kind == 'slice' and isinstance(sq_, SeqV) and not sq_.stores and
+                                       all(sg[0] == 'elem' or (sg[0] == 'int' and sg[2] == 1) for sg in (norm_segs(sq_.segs) if sq_.is_bytes() else sq_.segs)))
+        if finite: I.iterate(it_, collect_, e)
+        if finite and len(I.tops) == n_t and len(els_) <= 16:
+            is_find = n.endswith('find')
+            vals_ = []
+            for k_, x in enumerate(els_):
+                c_ = I.call_closure(args[1], [RefV(Cell(x))] if is_find else [x], e)
+                if not is_term(c_): vals_ = None; break
+                vals_.append((sym.as_cond(c_), x if is_find else C(k_)))
+            if vals_ is not None:
+                some_ = FALSE
+                for c_, _ in vals_: some_ = b_or(some_, c_)
+                if some_ == FALSE: return opt_none(ty)
+                # (references to scalars inside the candidates are joined by value and wrapped again)
+                shape_ = [isinstance(y, RefV) and is_term(deref(y)) for y in vals_[0][1].items] if isinstance(vals_[0][1], TupleV) else None
+                if shape_ is not None and all(isinstance(v_, TupleV) and len(v_.items) == len(shape_) for _, v_ in vals_):
+                    vals_ = [(c_, TupleV([deref(y) if r else y for y, r in zip(v_.items, shape_)])) for c_, v_ in vals_]
+                else: shape_ = None
+                if not hasattr(I, '_join'): I.branch([(('a', I.fresh_name('init')), lambda: UNIT), (TRUE, lambda: UNIT)])     # (defines the join)
+                pay = I._join([(c_, v_) for c_, v_ in vals_[:-1]] + [(TRUE, vals_[-1][1])]) if len(vals_) > 1 else vals_[0][1]
+                if shape_ is not None and isinstance(pay, TupleV): pay = TupleV([RefV(Cell(y)) if r else y for y, r in zip(pay.items, shape_)])
+                if not isinstance(pay, Top):
+                    if some_ == TRUE: return opt_some(pay, ty)
+                    ev = EnumV('core::option::Option', None, sym=('a', I.fresh_name('find')), ty=ty)
+                    ev.some_cond = some_; ev.payload_cache[('Some', '0')] = pay
+                    return ev
+        del I.tops[n_t:]
+        return I.top('find/position over a sequence that is not a short list of known values', e)
+    if n in ('core::slice::from_ref', 'core::slice::from_mut', 'core::array::from_ref'):
+        # a one-element slice over a value
+        ety = norm_ty(I.resolve_ty((e.get('generics') or ['?'])[0]))
+        v_ = a0
+        if int_bits(ety) == 8 and is_term(v_): return RefV(Cell(SeqV('u8', [('int', v_, 1)])))
+        return RefV(Cell(SeqV(ety, [('elem', v_)])))
+    if n == 'core::str::<impl str>::bytes' and isinstance(a0, (SeqV, SliceV)):
+        return IterV(a0, False)
+    if n.endswith('as core::iter::Iterator>::flat_map') or n == 'core::iter::Iterator::flat_map':
+        if isinstance(a0, IterV):
+            r_ = IterV(None, False, kind='flat_map'); r_.inner = a0; r_.fn = args[1]; return r_
+        return I.top('flat_map over %r' % (a0,), e)
     if n == 'core::iter::repeat':
         r_ = IterV(None, False, kind='repeat'); r_.value = args[0]; return r_
     if (n.endswith('as core::iter::Iterator>::take') or n == 'core::iter::Iterator::take') and isinstance(a0, IterV) and a0.kind == 'repeat' and is_term(args[1]):
@@ -640,7 +734,7 @@ def call(I, name, args, e):
         I.log.append(('guard', c, e.get('sp')))
         def bad():
             I.st.dead = True; return UNIT
-        return I.branch([(c, lambda: I.enum_payload(a0, 'Ok', '0')), (TRUE, bad)])
+        return I.branch([(c, lambda o_: I.enum_payload(o_, 'Ok', '0')), (TRUE, lambda o_: bad())], carry=[a0])
 
     # ---------------- Option
     if n in ('core::option::Option::<T>::as_deref', 'core::option::Option::<T>::as_deref_mut', 'core::option::Option::<T>::as_mut', 'core::option::Option::<&T>::copied', 'core::option::Option::<&T>::cloned'):
@@ -667,7 +761,9 @@ def call(I, name, args, e):
             return ev
         return I.top('slice::get of %r by %r' % (a0, idx), e)
     if n == 'core::iter::once':
-        return IterV(SeqV(norm_ty(I.resolve_ty((e.get('generics') or ['?'])[0])), [('elem', args[0])]), False)
+        ety_ = norm_ty(I.resolve_ty((e.get('generics') or ['?'])[0]))
+        if ety_ == 'u8' and is_term(args[0]): return IterV(SeqV('u8', [('int', args[0], 1)]), False)
+        return IterV(SeqV(ety_, [('elem', args[0])]), False)
     if n == 'core::option::Option::<T>::as_ref':
         if isinstance(a0, EnumV): return a0
         return I.top('as_ref', e)
@@ -788,13 +884,28 @@ def call(I, name, args, e):
         return I.arith('Eq', args[0], args[1], None, e)
     return NotImplemented
 
+def _under(I, cond, thunk, e):
+    """value of thunk() evaluated in the current state under the assumption `cond` (for pure closures of Option/Result
+    adaptors: the result is only used where cond holds).  A closure that mutates anything is not handled this way."""
+    st = I.st
+    saved_facts = list(st.facts); saved_ranges = dict(st.ranges); n_log = len(I.log)
+    st.facts.append((cond, None)); sym.refine(cond, st.ranges); sym.CTX = st.ranges
+    try:
+        r = thunk()
+    finally:
+        st.facts[:] = saved_facts; st.ranges.clear(); st.ranges.update(saved_ranges); sym.CTX = st.ranges
+    if any(ev[0] == 'mutate' for ev in I.log[n_log:]): return I.top('Option/Result adaptor with a closure that has effects', e)
+    return r
+
 def opt_match(I, ov, some_fn, none_fn, e):
     ov = deref(ov)
     if not isinstance(ov, EnumV): return I.top('option op on %r' % (ov,), e)
     if ov.variant == 'Some': return some_fn(ov.fields['0'])
     if ov.variant == 'None': return none_fn()
     c = getattr(ov, 'some_cond', None) or ('isvar', ov.sym, 'Some')
-    return I.branch([(c, lambda: some_fn(I.enum_payload(ov, 'Some', '0'))), (TRUE, none_fn)])
+    # (the payload may be a place - `get_mut(a..b)` - : each branch works on its own copy of the state, so the option is
+    # carried into the branch and its payload taken there)
+    return I.branch([(c, lambda o_: some_fn(I.enum_payload(o_, 'Some', '0'))), (TRUE, lambda o_: none_fn())], carry=[ov])
 
 def default_value(I, ty, e=None):
     ty = norm_ty(ty)
